@@ -21,6 +21,14 @@ CHECKS = {
         note='Comments stripped (C14). Relative order of inline vs standalone refs is not compared (DBML cannot express it). Four recorded findings '
              '(falsy defaults, keyword-like string defaults, multi-line text in settings position, dotted/comma names) matched by narrow shape predicates.',
         design='DESIGN.md §3 C02'),
+    'C05': dict(
+        level='model_checking', technique='identity/back-pointer invariant evaluated in every state of the C01 derivation BFS and element products (explicit enumeration, real parser)',
+        text='The link invariant (endpoint identity, lookup equivalence by index/full name/alias, owner back-pointers of columns, indexes and all notes, '
+             'enum-typed columns holding the Enum object, groups holding Table objects, get_refs exactness, unique key holder) is evaluated with `is` in every '
+             'well-formed state of the derivation BFS under three table-addressing styles and on the reference/column/index/table/misc products.',
+        note='Objects are located positionally from the abstract model the document was written from. The key-holder clause is read through '
+             'get_references_for_sql (the anchored mechanism). One recorded finding (dotted enum names).',
+        design='DESIGN.md §3 C05'),
     'C18': dict(
         level='exploration', technique='exhaustive enumeration of all labelled DAGs (n<=4/5) x edge kinds, SQL read back by independent DDL reader',
         text='Every labelled DAG of inline references on up to 4 (quick) / 5 (thorough) tables with every assignment of kinds >,<,- is built, '
